@@ -172,10 +172,13 @@ def build_harness(name, tags="verif"):
     cmd = ["go", "build", "-tags", tags, "-o", exe]
     if REPO != "/repo":
         # development against a scratch worktree of the repository
-        alt = os.path.join(BUILD, "alt.mod")
+        import hashlib
+        tag = hashlib.sha1(REPO.encode()).hexdigest()[:10]
+        alt = os.path.join(BUILD, "alt_%s.mod" % tag)
         open(alt, "w").write(open(os.path.join(HARNESS, "go.mod")).read().replace("=> /repo", "=> " + REPO))
-        shutil.copyfile(os.path.join(HARNESS, "go.sum"), os.path.join(BUILD, "alt.sum"))
-        cmd += ["-modfile", alt]
+        shutil.copyfile(os.path.join(HARNESS, "go.sum"), os.path.join(BUILD, "alt_%s.sum" % tag))
+        exe = os.path.join(BUILD, name + "_" + tag)
+        cmd = ["go", "build", "-tags", tags, "-o", exe, "-modfile", alt]
     rc, out = sh(cmd + ["./cmd/" + name], cwd=HARNESS, env=GOENV, timeout=1200)
     if rc != 0:
         raise BuildError("go build of harness %s against /repo failed:\n%s" % (name, out[-4000:]))
@@ -193,7 +196,7 @@ class BuildError(Exception):
 
 
 def run_harness(exe, prop, seed, n, tier, replay=None, shard=400, timeout=3000, extra=()):
-    out = os.path.join(BUILD, "cases", prop)
+    out = os.path.join(BUILD, "cases", prop + ("" if REPO == "/repo" else "_" + os.path.basename(exe).split("_")[-1]))
     shutil.rmtree(out, ignore_errors=True)
     os.makedirs(out)
     cmd = [exe, "--seed", str(seed), "--n", str(n), "--out", out, "--tier", tier, "--shard", str(shard)] + list(extra)
@@ -277,7 +280,7 @@ def load_known():
 
 
 def write_replay(prop, seed, k, payload):
-    d = os.path.join(VERIF, "replays", prop)
+    d = os.path.join(VERIF, "replays", prop + ("_mutant" if os.environ.get("VERIF_NO_EVIDENCE") else ""))
     os.makedirs(d, exist_ok=True)
     path = os.path.join(d, "%s-%d.json" % (seed, k))
     json.dump(payload, open(path, "w"), indent=1)
@@ -285,6 +288,8 @@ def write_replay(prop, seed, k, payload):
 
 
 def write_evidence(prop, tier, seed, level, coverage, assumptions, wall, violations):
+    if os.environ.get("VERIF_NO_EVIDENCE"):
+        return  # mutant runs against a scratch worktree must not overwrite the evidence of /repo
     os.makedirs(os.path.join(VERIF, "evidence"), exist_ok=True)
     ev = {"property_id": prop, "tier": tier, "seed": seed, "level": level, "coverage": coverage,
           "assumptions": assumptions, "wall_s": round(wall, 2), "violations": violations}
